@@ -958,6 +958,8 @@ class Engine:
             body_st.writes = set()
             if pre_body:
                 pre_body(body_st)
+            for name, fn in getattr(spec, 'assume', ()):
+                body_st.assume(zb(fn(View(body_st, self))))
             dec0 = spec.decreases(View(body_st, self)) if spec.decreases else None
             for s, kind, payload in self.block(body, body_st):
                 written = s.writes
@@ -1963,7 +1965,21 @@ class Engine:
             c = self.truth(self.ev(n.test, st), st)
             if isinstance(c, bool):
                 return self.ev(n.body if c else n.orelse, st)
-            a, b = self.ev(n.body, st), self.ev(n.orelse, st)
+            g0 = dict(st.ghost)
+            w0 = set(st.writes) if st.writes is not None else None
+            st.pc.append(c)
+            try:
+                a = self.ev(n.body, st)
+            finally:
+                st.pc.pop()
+            st.pc.append(z3.Not(c))
+            try:
+                b = self.ev(n.orelse, st)
+            finally:
+                st.pc.pop()
+            if _ghost_changed(g0, st.ghost) or (w0 is not None and st.writes != w0):
+                # only one branch of a conditional expression is evaluated; an effect in a branch chosen by a symbolic condition would need a fork
+                raise Unsupported('call with effects inside a conditional expression with a symbolic condition (line %d)' % getattr(n, 'lineno', 0))
             if isinstance(a, Ref) and isinstance(b, Ref):
                 ca, cb = st.content(a), st.content(b)
                 if isinstance(ca, ArrC) and isinstance(cb, ArrC):
@@ -2069,6 +2085,7 @@ class Engine:
             c = st.content(sv)
             elem_k = None
         saved_env = dict(st.env)
+        g0 = dict(st.ghost)
         prev = getattr(st, 'in_comprehension', None)
         st.in_comprehension = (k, c.n)
         st.comp_raises = getattr(st, 'comp_raises', [])
@@ -2083,6 +2100,9 @@ class Engine:
             st.pc.pop()
             st.in_comprehension = prev
             st.env = saved_env
+        if _ghost_changed(g0, st.ghost):
+            # the element expression is evaluated once per element (zero or many times); a recorded effect would be counted once
+            raise Unsupported('call with effects inside a comprehension over a symbolic sequence (line %d)' % getattr(n, 'lineno', 0))
         if keep is not None:
             from .symval import FiltC
             ev_ = v.val if isinstance(v, NR) else to_z3(v)
